@@ -36,6 +36,7 @@ import (
 	"fmt"
 	"hash"
 	"strconv"
+	"sync"
 	"time"
 
 	"gitlab.com/yawning/obfs4.git/common/csrand"
@@ -82,6 +83,10 @@ var ErrReplayedHandshake = errors.New("handshake: Replay detected")
 // ErrNtorFailed is the error returned when the ntor handshake fails.  This
 // error is fatal and the connection MUST be dropped.
 var ErrNtorFailed = errors.New("handshake: ntor handshake failure")
+
+// replayFilterLock serializes reading the clock and updating a replay filter,
+// see parseClientHandshake().
+var replayFilterLock sync.Mutex
 
 // InvalidMacError is the error returned when the handshake MACs do not match.
 // This error is fatal and the connection MUST be dropped.
@@ -288,7 +293,16 @@ func (hs *serverHandshake) parseClientHandshake(filter *replayfilter.ReplayFilte
 		macRx := resp[pos+markLength : pos+markLength+macLength]
 		if hmac.Equal(macCmp, macRx) {
 			// Ensure that this handshake has not been seen previously.
-			if filter.TestAndSet(time.Now(), macRx) {
+			//
+			// The timestamp has to be taken while holding a lock that also
+			// covers the filter update.  Otherwise a concurrent handler
+			// that sampled the clock earlier, but reaches the filter later,
+			// looks like the system time jumping backwards, which causes
+			// the filter to be reset (and replays to be accepted).
+			replayFilterLock.Lock()
+			seen := filter.TestAndSet(time.Now(), macRx)
+			replayFilterLock.Unlock()
+			if seen {
 				// The client either happened to generate exactly the same
 				// session key and padding, or someone is replaying a previous
 				// handshake.  In either case, fuck them.
